@@ -77,7 +77,8 @@ func (f *fault) gallina() string {
 type effect struct {
 	Kind  string // taint cond create delete untaint clear
 	A, B  int    // node id | (cmd id, replacement index)
-	Flag  bool   // create: a candidate carried the in-memory deletion mark; delete: every replacement existed and was Initialized
+	Flag  bool   // create: a candidate carried the in-memory deletion mark; delete: every replacement existed in the API and was Initialized
+	Flag2 bool   // delete: every replacement was tracked by the cluster state (Cluster.NodeClaimExists)
 	class int
 }
 
@@ -90,7 +91,7 @@ func (e effect) gallina() string {
 	case "create":
 		return fmt.Sprintf("ECreate %s %s %s", gnat(e.A), gnat(e.B), kit.GBool(e.Flag))
 	case "delete":
-		return fmt.Sprintf("EDelete %s %s", gnat(e.A), kit.GBool(e.Flag))
+		return fmt.Sprintf("EDelete %s %s %s", gnat(e.A), kit.GBool(e.Flag), kit.GBool(e.Flag2))
 	case "untaint":
 		return fmt.Sprintf("EUntaint %s", gnat(e.A))
 	}
@@ -102,7 +103,7 @@ func (e effect) short() string {
 	case "create":
 		return fmt.Sprintf("create(%d.%d,marked=%v)", e.A, e.B, e.Flag)
 	case "delete":
-		return fmt.Sprintf("delete(%d,ready=%v)", e.A, e.Flag)
+		return fmt.Sprintf("delete(%d,api-ready=%v,tracked=%v)", e.A, e.Flag, e.Flag2)
 	}
 	return fmt.Sprintf("%s(%d)", e.Kind, e.A)
 }
@@ -368,9 +369,9 @@ func (w *world) replKeyOf(obj client.Object) ([2]int, bool) {
 	return [2]int{k, j}, true
 }
 
-// replsReady: every replacement of the in-flight command owning candidate id exists in the API and
-// reports Initialized, evaluated at the moment of the call.
-func (w *world) replsReady(id int) bool {
+// replsReady: every replacement of the in-flight command owning candidate id (api) exists in the API and
+// reports Initialized, (tracked) is known to the cluster state; evaluated at the moment of the call.
+func (w *world) replsReady(id int) (api bool, tracked bool) {
 	w.mu.Lock()
 	var names []string
 	for _, ci := range w.cmds {
@@ -383,16 +384,19 @@ func (w *world) replsReady(id int) bool {
 		}
 	}
 	w.mu.Unlock()
+	api, tracked = true, true
 	for _, name := range names {
 		nc := &v1.NodeClaim{}
 		if err := w.inner.Get(w.ctx, client.ObjectKey{Name: name}, nc); err != nil {
-			return false
+			api = false
+		} else if !nc.StatusConditions().Get(v1.ConditionTypeInitialized).IsTrue() {
+			api = false
 		}
-		if !nc.StatusConditions().Get(v1.ConditionTypeInitialized).IsTrue() {
-			return false
+		if !w.cluster.NodeClaimExists(name) {
+			tracked = false
 		}
 	}
-	return true
+	return api, tracked
 }
 
 func (w *world) anyCandidateMarked(k int) bool {
@@ -464,7 +468,7 @@ func (w *world) funcs() interceptor.Funcs {
 			if err := w.hit("write", "NodeClaim-delete", obj.GetName()); err != nil {
 				return err
 			}
-			ready := w.replsReady(id)
+			ready, tracked := w.replsReady(id)
 			if err := c.Delete(ctx, obj, opts...); err != nil {
 				return err
 			}
@@ -476,7 +480,7 @@ func (w *world) funcs() interceptor.Funcs {
 					}
 				}
 			}
-			w.effects = append(w.effects, effect{Kind: "delete", A: id, Flag: ready})
+			w.effects = append(w.effects, effect{Kind: "delete", A: id, Flag: ready, Flag2: tracked})
 			w.mu.Unlock()
 			return nil
 		},
@@ -744,7 +748,10 @@ func (w *world) exec(o *jOp) []effect {
 				r.Exists = false
 			}
 		case "delstate":
-			w.cluster.DeleteNodeClaim(r.Name)
+			// the informer delivers a deletion only of an object that is gone from the API
+			if !r.Exists {
+				w.cluster.DeleteNodeClaim(r.Name)
+			}
 		}
 	case "deliver":
 		o.Ret = "EnvOk"
